@@ -42,14 +42,18 @@ theorem history_preserves_inv (env : Env H V) (ops : List Op) (w : World V) (h :
 /-! ## Reading -/
 
 /-- One read of a time-dependent generator `(name, seed)` at time `t` returns
-`draw (hash name seed t)`: a cache hit can only be a value produced at this very time, because
-the marker `_NO_TIME` of a fresh generator is unequal to every time (−1 included). -/
+`draw (hash name seed t)` (provided the generator returns at all: see `failed_read_keeps_cache`):
+a cache hit can only be a value produced at this very time, because the marker `_NO_TIME` of a
+fresh generator is unequal to every time (−1 included), and because a generation that raised
+left value and time stamp untouched. -/
 theorem read_value (env : Env H V) (w : World V) (tg : Target) (p gi : Nat) (g : Gen V)
     (n : String) (s : Int) (pt : PType) (hinv : Inv env w)
     (hr : resolve w tg p = some (.gen gi)) (hg : w.gens[gi]? = some g) (hk : g.kind = .td n s)
-    (hp : w.ptypes[p]? = some pt) :
+    (hp : w.ptypes[p]? = some pt) (hnf : g.failsNow = none) :
     (runOp env (.read tg p) w).1 = .ok (.val (some (env.tdVal n s w.clock.time))) := by
-  simp only [runOp, readSlot, hr, hp, hg, hinv.1, produceValue]
+  simp only [runOp, readSlot, hr, hp, hg, hinv.1]
+  rw [readGen_nofail env _ _ _ g false (by simp [hnf])]
+  simp only [produceValue]
   have hok := HeapOK_get env _ _ g hinv.2 hg
   unfold GenOK at hok
   simp only [hk] at hok
@@ -77,7 +81,7 @@ def C19_full : Prop :=
   ∀ (ops : List Op) (tg : Target) (p gi : Nat) (g : Gen V) (n : String) (s : Int) (pt : PType),
     resolve (runOps env ops w0).2 tg p = some (.gen gi) →
     (runOps env ops w0).2.gens[gi]? = some g → g.kind = .td n s →
-    (runOps env ops w0).2.ptypes[p]? = some pt →
+    (runOps env ops w0).2.ptypes[p]? = some pt → g.failsNow = none →
     (runOp env (.read tg p) (runOps env ops w0).2).1
       = .ok (.val (some (env.tdVal n s (runOps env ops w0).2.clock.time)))
 
@@ -88,14 +92,14 @@ theorem read_is_function_of_time (env : Env H V) (w0 : World V) (h0 : Inv env w0
     (ops : List Op) (tg : Target) (p gi : Nat) (g : Gen V) (n : String) (s : Int) (pt : PType)
     (hr : resolve (runOps env ops w0).2 tg p = some (.gen gi))
     (hg : (runOps env ops w0).2.gens[gi]? = some g) (hk : g.kind = .td n s)
-    (hp : (runOps env ops w0).2.ptypes[p]? = some pt) :
+    (hp : (runOps env ops w0).2.ptypes[p]? = some pt) (hnf : g.failsNow = none) :
     (runOp env (.read tg p) (runOps env ops w0).2).1
       = .ok (.val (some (env.tdVal n s (runOps env ops w0).2.clock.time))) :=
-  read_value env _ tg p gi g n s pt (history_preserves_inv env ops w0 h0) hr hg hk hp
+  read_value env _ tg p gi g n s pt (history_preserves_inv env ops w0 h0) hr hg hk hp hnf
 
 theorem C19_full_holds : C19_full :=
-  fun _ _ env w0 h0 ops tg p gi g n s pt hr hg hk hp =>
-    read_is_function_of_time env w0 h0 ops tg p gi g n s pt hr hg hk hp
+  fun _ _ env w0 h0 ops tg p gi g n s pt hr hg hk hp hnf =>
+    read_is_function_of_time env w0 h0 ops tg p gi g n s pt hr hg hk hp hnf
 
 /-- regression witness of the repaired defect (`_Dynamic_time` used to start at −1): class `A`
 with `x = Dynamic(default=UniformRandom(name='g', seed=0, time_dependent=True))`;
@@ -121,14 +125,16 @@ theorem read_same_any_order_any_instance (env : Env H V) (w w' : World V) (h : I
     (hr' : resolve (runOps env ops' w').2 tg' p' = some (.gen gi'))
     (hg' : (runOps env ops' w').2.gens[gi']? = some g') (hk' : g'.kind = .td n s)
     (hp' : (runOps env ops' w').2.ptypes[p']? = some pt')
-    (ht : (runOps env ops w).2.clock.time = (runOps env ops' w').2.clock.time) :
+    (ht : (runOps env ops w).2.clock.time = (runOps env ops' w').2.clock.time)
+    (hnf : g.failsNow = none) (hnf' : g'.failsNow = none) :
     (runOp env (.read tg p) (runOps env ops w).2).1 = (runOp env (.read tg' p') (runOps env ops' w').2).1 := by
-  rw [read_is_function_of_time env w h ops tg p gi g n s pt hr hg hk hp,
-      read_is_function_of_time env w' h' ops' tg' p' gi' g' n s pt' hr' hg' hk' hp', ht]
+  rw [read_is_function_of_time env w h ops tg p gi g n s pt hr hg hk hp hnf,
+      read_is_function_of_time env w' h' ops' tg' p' gi' g' n s pt' hr' hg' hk' hp' hnf', ht]
 
 /-- **Repeated reads.**  Reading any dynamic parameter (any generator, time-dependent or not)
 twice at the same time returns the same result, and the second read changes nothing. -/
-theorem repeated_read_same (env : Env H V) (w : World V) (tg : Target) (p : Nat) (hd : w.dynTD = true) :
+theorem repeated_read_same (env : Env H V) (w : World V) (tg : Target) (p : Nat) (hd : w.dynTD = true)
+    (hnf : ∀ gi g, resolve w tg p = some (.gen gi) → w.gens[gi]? = some g → g.failsNow = none) :
     runOp env (.read tg p) (runOp env (.read tg p) w).2 = runOp env (.read tg p) w := by
   simp only [runOp]
   cases hr : resolve w tg p with
@@ -152,6 +158,7 @@ theorem repeated_read_same (env : Env H V) (w : World V) (tg : Target) (p : Nat)
               resolve { w with gens := hp', dynTD := d } tg p = some (.gen gi) := by
             intro d hp'; simpa [resolve] using hr
           -- the generator after the first read has `lastTime = now`: the second read is a cache hit
+          have hn := hnf gi g hr hg
           have key : produceValue env true w.clock.time (produceValue env true w.clock.time g false).2 false
               = ((produceValue env true w.clock.time g false).1, (produceValue env true w.clock.time g false).2) := by
             unfold produceValue
@@ -160,7 +167,36 @@ theorem repeated_read_same (env : Env H V) (w : World V) (tg : Target) (p : Nat)
             · simp [ht]
             · have : (some w.clock.time != g.lastTime) = true := by simpa using ht
               simp [this]
-          simp only [readSlot, hr, hr', hp, hg, hd, List.getElem?_set_self hlt, key, List.set_set]
+          have hcall : willCall true w.clock.time (produceValue env true w.clock.time g false).2 false = false := by
+            unfold willCall produceValue
+            simp only [Bool.not_true, Bool.false_eq_true, if_false, Bool.false_or]
+            by_cases ht : some w.clock.time = g.lastTime
+            · simp [ht]
+            · have : (some w.clock.time != g.lastTime) = true := by simpa using ht
+              simp [this]
+          have key2 : readGen env true w.clock.time pt (readGen env true w.clock.time pt g false).2 false
+              = readGen env true w.clock.time pt g false := by
+            rw [readGen_nofail env _ _ _ g false (by simp [hn])]
+            simp only
+            rw [readGen_nofail env _ _ _ _ false (by simp [hcall]), key]
+          simp only [readSlot, hr, hr', hp, hg, hd, List.getElem?_set_self hlt, key2, List.set_set]
+
+/-- **A generation that raises leaves the cache alone.**  If the generator raises while a value
+is being produced (the caller may catch the exception and go on), neither the cached value nor
+its time stamp nor the saved stack of any generator changes: later reads at that time generate
+afresh instead of returning the value of an earlier time. -/
+theorem failed_read_keeps_cache (env : Env H V) (w : World V) (tg : Target) (p gi : Nat) (g : Gen V)
+    (pt : PType) (e : Exc) (f : Bool)
+    (hr : resolve w tg p = some (.gen gi)) (hg : w.gens[gi]? = some g) (hp : w.ptypes[p]? = some pt)
+    (hfail : g.failsNow = some e) (hcall : willCall w.dynTD w.clock.time g f = true) :
+    (readSlot env w tg p f).1 = .raised e ∧ cachesOf (readSlot env w tg p f).2 = cachesOf w := by
+  have h := readGen_raised env w.dynTD w.clock.time pt g f e hfail hcall
+  simp only [readSlot, hr, hp, hg]
+  refine ⟨h.1, ?_⟩
+  unfold cachesOf
+  simp only [List.map_set, h.2.1, h.2.2.1, h.2.2.2]
+  apply set_self_of_getElem?
+  simp [hg]
 
 /-! ## Inspecting -/
 
